@@ -147,6 +147,32 @@ const char *RAW_CORPUS[] = {
     "DEFINE PRIO 2147483646 a AS b END DEFINE DEFINE PRIO 1000000 b AS a END DEFINE a",
     "DEFINE PRIO 999999 skip AS skip END DEFINE x := skip + 1",
     "DEFINE PRIO 1000001 <ID> + <INT> AS $0 + $1 END DEFINE x := y + 1",
+    "DEFINE PRIO 1 PRIO 2 a AS x := 1 END DEFINE a",
+    "DEFINE PRIO a AS x := 1 END DEFINE a",
+    "DEFINE a <V> AS $0 END DEFINE x := a 1",
+    "DEFINE a <ID> AS $0 END DEFINE a x := 1",
+    "DEFINE <V> AS x := $0 END DEFINE 5",
+    "DEFINE <INT> AS 7 END DEFINE x := 5",
+    "DEFINE a AS END DEFINE a ; x := 1",
+    "DEFINE a AS $0 END DEFINE a",
+    "DEFINE a <ID> AS #0 END DEFINE a x",
+    "DEFINE a <ID> <ID> AS $1 := $0 ; $0 := $1 END DEFINE a x y ; a y x",
+    "DEFINE a AS x := 1 END DEFINE DEFINE a AS x := 2 END DEFINE a",
+    "DEFINE a AS DEFINE b AS x := 1 END DEFINE END DEFINE a ; b",
+    "DEFINE END AS x := 1 END DEFINE",
+    "DEFINE ; AS ; ; END DEFINE x := 1 ; y := 2",
+    "DEFINE x := 1 AS x := 1 END DEFINE x := 1",
+    "DEFINE LOOP AS WHILE END DEFINE LOOP x DO x := x - 1 END",
+    "DEFINE a <P> b AS $0 ; $0 END DEFINE a x := x + 1 b",
+    "DEFINE a <ARGS> b AS y := RUN f WITH $0 , $0 END END DEFINE PROGRAM f IN p , q DO x0 := p END a 1 b",
+    "DEFINE a ( <V> ) AS $0 END DEFINE x := a ( a ( a ( 1 ) ) )",
+    "Def a As x := 1 Enddef a",
+    "define a as x := 1 end define a",
+    "DEFINE a AS x := 1 END  DEFINE a",
+    "include \"main.theo\" x := 1",
+    "x := 1 include \"main.theo\"",
+    "x := 1 include \"nosuch\" ; y := 2 include \"nosuch\"",
+    "x := 1 include",
 };
 const int N_RAW = sizeof(RAW_CORPUS) / sizeof(RAW_CORPUS[0]);
 
@@ -977,6 +1003,7 @@ Plan gen_macro_plan(Rng &rng, bool thorough) {
   if (dup && budget > 16) budget = rng.range(1, 16);
   p.knobs["budget"] = budget;
   p.knobs["divergent"] = divergent;
+  if ((divergent && !cheap) || !family) p.knobs["growing"] = 1;   // may grow under the compiler's fixed budget of 1024
   if (family && !dup && (!divergent || cheap) && rng.chance(1, 6)) p.knobs["end_to_end"] = 1;
   if (text.find("__INC__") != std::string::npos || text.find("__DEC__") != std::string::npos) { p.knobs["end_to_end"] = rng.chance(1, 2); p.knobs["prelude_only"] = 1; }
   if (family && divergent && !cheap && !dup && rng.chance(1, 300)) p.knobs["end_to_end"] = 1;
@@ -1012,6 +1039,15 @@ Plan gen_fs_plan(const std::string &prop, Rng &rng, long long sub, const std::st
     p.ops.push_back(o);
     if (rng.chance(1, 3)) p.ops.push_back(random_fault(rng, p.proj));
     p.note = "corpus input";
+    return p;
+  }
+  if (mode < 18) {
+    // macro sets (families with odd priorities, or random definitions) compiled end to end, sometimes with a fault on top
+    Plan mp = gen_macro_plan(rng, thorough);
+    for (int tries = 0; tries < 6 && mp.knobs.count("growing") && !rng.chance(1, 12); tries++) mp = gen_macro_plan(rng, thorough);
+    p.proj = mp.proj;
+    if (rng.chance(1, 3)) p.ops.push_back(random_fault(rng, p.proj));
+    p.note = "macro set through compile()";
     return p;
   }
   unsigned macros = rng.chance(1, 2) ? (unsigned)rng.below(16) : 0;
